@@ -273,6 +273,8 @@ static Reg r_pt("pt", [](const Args& a) {
         double rc = (P.cyl || P.n == 0) ? INFINITY : std::fabs(ok_ * c.a * c11::dbl(P.E.m(c11::sc_deg(lat)) / P.n)) / (c.cls == 2 ? c11::dbl(P.kap * P.kap) : 1.0);
         double krel = kp * (1e-12 + 4 * (10e-9 * (c.a / 6378137.0) * std::fmax(1.0, ok_) + 1e-14 * c.a) / rc);   // same absolute budget as the positions
         krel += NULP * cd.k / ok_;
+        // LCC: k = k0 (m0/m) (t/t0)^n, so the documented error of the cone constant sin(lat0) enters as |ln(t/t0)| times it
+        if (c.cls == 1 && !P.cyl && !P.polar) { double lt = c11::dbl(fabsq(logq(P.E.t(c11::sc_deg(lat)) / P.E.t(P.p0)))); if (std::isfinite(lt)) krel += origin_slack(c) / (c.a * mfac(c.f)) * lt; }
         if (!(std::fabs(c11::dbl(Q(k) - w.k)) <= krel * ok_)) badt("closed-form-k", "scale " + num(k) + " vs closed form " + c11::qstr(w.k) + " (relative tolerance " + num(krel) + ")");
         double og = c11::dbl(w.gamma), dg = c11::dbl(Q(g) - w.gamma); if (edge || std::fabs(og) == 180) dg = std::fabs(std::fabs(g) - std::fabs(og));
         // the cone constant sin(lat0) carries the documented error of the origin: gamma = n lambda (k1^2 n lambda for Albers)
